@@ -25,6 +25,8 @@ THEOREMS = [
     "Ts.World.C06_world_written_once",
     "Ts.World.C06_world_kept_nodup",
     "Ts.World.C06_world_replicated_bytes_once",
+    "Ts.World.C06_world_partition_independent_bytes",
+    "Ts.World.C06_world_partition_independent_restore",
     "Ts.World.C07_world_replicated_everywhere",
     # which paths a replication glob selects (TsModel/Glob.lean, tied to fnmatch.fnmatch and to the real replicated sets)
     "Ts.Glob.glob_subtree",
